@@ -106,7 +106,7 @@ let prim1_of = function
   | s -> failwith ("prim1 " ^ s)
 let prim2_of = function
   | "eq" -> PEq | "neq" -> PNeq | "lt" -> PLt | "add" -> PAdd | "mul" -> PMul | "cat" -> PCat
-  | "and" -> PAnd | "or" -> POr | "opteq" -> POptEq | "in" -> PIn | "aget" -> PAGet
+  | "and" -> PAnd | "or" -> POr | "opteq" -> POptEq | "optneq" -> POptNeq | "in" -> PIn | "aget" -> PAGet
   | s -> failwith ("prim2 " ^ s)
 let qual_of = function
   | "-" -> QNone | "r" -> QReq | "o" -> QOpt | "s" -> QSingle | "m" -> QMulti
